@@ -553,7 +553,7 @@ _RARE = st.sampled_from([False, False, False, True])
 _SIGN = st.sampled_from([-1.0, 1.0])
 _U_IN = sps.rel_poses()
 
-OUT_KINDS = ("high", "low", "below", "tilt", "flip", "twist", "lateral", "far")
+OUT_KINDS = ("high", "low", "below", "tilt", "tilt_diag", "tilt_diag", "flip", "twist", "lateral", "far")
 
 
 @st.composite
@@ -575,6 +575,13 @@ def _u_out(draw, kind):
                            G.floats(-math.pi, math.pi)))
         th = draw(st.one_of(G.floats(1.05, 1.5), G.floats(0.7, 2.6))) if kind == "tilt" else draw(G.floats(2.6, 3.1))
         u[3], u[4] = th * math.cos(a), th * math.sin(a)
+    elif kind == "tilt_diag":
+        # a pure tilt of 61..86 deg about a horizontal axis near a plate DIAGONAL: the zz entry of the relative rotation
+        # (cos t) is below the limit while the xx and yy entries ((1+cos t)/2 or so) are still above it -- the one
+        # entry a check of "the diagonal" can lose without any axis-aligned tilt noticing
+        a = draw(st.sampled_from([math.pi / 4, -math.pi / 4, 3 * math.pi / 4, -3 * math.pi / 4])) + draw(G.floats(-0.3, 0.3))
+        th = draw(G.floats(1.07, 1.5))
+        u[3], u[4], u[5] = th * math.cos(a), th * math.sin(a), 0.0
     elif kind == "twist":
         u[5] = draw(_SIGN) * draw(G.floats(0.7, 3.1))
     elif kind == "lateral":
